@@ -162,7 +162,7 @@ def _gen_Q(rng):
     tolB = Fraction(1, 2 ** rng.choice([2, 3, 4, 5, 6, 8, 10, 13, 14]))
     tolE = Fraction(1, 2 ** rng.choice([1, 3, 5, 7, 10]))
     grid = 2 ** rng.choice([2, 3, 4, 6, 8])
-    K = rng.randint(0, 6)
+    K = rng.choice([0, 1, 2, 2, 3, 3, 4, 5, 6])
     knots = sorted({Fraction(rng.randint(0, grid), grid) for _ in range(K)})
     K = len(knots)
     j = rng.random()
@@ -177,6 +177,11 @@ def _gen_Q(rng):
         ess = [target + step * rng.choice([0, 0, 0, 1, -1, 3]) for _ in range(K + 1)]
     else:                 # arbitrary
         ess = [target + step * rng.randint(-5, 5) for _ in range(K + 1)]
+    if K >= 1 and rng.random() < 0.6:     # make the bracket [prev, 1] straddle the target (plateau at target included)
+        ess[-1] = target - step * rng.randint(1, 3)
+        i = sum(1 for k in knots if k <= prev)
+        if i < K:
+            ess[i] = max(ess[i], target + step * rng.randint(0, 2))
     vv = Fraction(rng.randint(1, 16), 16)
     ms = rng.random()
     if ms < 0.5:          # increasing through vv
@@ -206,7 +211,7 @@ def _gen_F(rng, allow_nonfinite=True):
     j = rng.random()
     tolB = tolB0 if j < 0.8 else rng.choice([1e-3, 0.05, 1e-6, 0.3])
     tolE = tolE0 if j < 0.8 else rng.choice([0.05, 1e-3, 0.5])
-    K = rng.randint(0, 7)
+    K = rng.choice([0, 1, 2, 2, 3, 3, 4, 5, 6, 7])
     knots = sorted({rng.random() if rng.random() < 0.7 else rng.randint(0, 64) / 64 for _ in range(K)})
     K = len(knots)
     j = rng.random()
@@ -224,6 +229,11 @@ def _gen_F(rng, allow_nonfinite=True):
                for _ in range(K + 1)]
     else:
         ess = [target * (1 + rng.gauss(0, 0.4)) for _ in range(K + 1)]
+    if K >= 1 and rng.random() < 0.6:
+        ess[-1] = target * rng.choice([0.2, 0.9, 0.999])
+        i = sum(1 for k in knots if k <= prev)
+        if i < K:
+            ess[i] = max(ess[i], target * rng.choice([1.0, 1.001, 1.5]))
     ms = rng.random()
     if ms < 0.45:
         met = sorted([vv * 2 * rng.random() for _ in range(K + 1)])
@@ -256,7 +266,7 @@ def _first_iter_cases(regime, rng, k):
 
 
 def _corr_decision(tier, drv, regime):
-    n = (900 if regime == "Q" else 1100) if tier == "quick" else 25000
+    n = (1200 if regime == "Q" else 1600) if tier == "quick" else 25000
     rng = common.rng_for("C05.dec." + regime)
     c = Corr(f"decision-{regime}", {"Q": "exact-dyadic (Rat model)", "F": "bit-exact (Float model, real constants, NaN/inf)"}[regime])
     cases = [(_gen_Q(rng) if regime == "Q" else _gen_F(rng)) for _ in range(n)]
@@ -461,7 +471,11 @@ def _same_weights(got, returned):
     return got.shape == returned.shape and bool(np.all(np.abs(got - returned) <= TOL * returned + 1e-300))
 
 
-def _record_run(cfg, max_iter=60):
+class _StopRun(Exception):
+    """raised by the observer to truncate a long (slowly advancing) run: not an error"""
+
+
+def _record_run(cfg, max_iter=40):
     """one real Sampler run; per iteration of Reweighter.run: state before/after, every oracle call with its results,
        the Z calls made by run itself, the returned weights and what Trainer.run / Resampler.run received."""
     from . import witnesses
@@ -500,6 +514,8 @@ def _record_run(cfg, max_iter=60):
         return r
 
     def run_spy():
+        if len(its) >= max_iter:
+            raise _StopRun()
         cur.clear()
         cur.update(calls=[], zcalls=[], inside=True, prev=sm.get_current("beta"), hist_len=sm.get_history_length(),
                    hist=_hist_arrays(sm), iter_before=sm.get_current("iter"))
@@ -508,8 +524,6 @@ def _record_run(cfg, max_iter=60):
         cur.update(beta=sm.get_current("beta"), ess=sm.get_current("ess"), logz=sm.get_current("logz"),
                    iter_after=sm.get_current("iter"), weights=np.array(w, dtype=float, copy=True))
         its.append(dict(cur))
-        if len(its) > max_iter:
-            raise RuntimeError("iteration budget exceeded")
         return w
 
     def train_spy(weights):
@@ -531,6 +545,8 @@ def _record_run(cfg, max_iter=60):
         with _quiet(), warnings.catch_warnings():
             warnings.simplefilter("ignore")
             s.run(n_total=cfg["n_total"], progress=False)
+    except _StopRun:
+        pass
     except Exception as e:  # noqa
         err = f"{type(e).__name__}: {e}"
     return its, err, rw
